@@ -410,6 +410,8 @@ struct Render {
     arng: Rng,
     alias_ok: bool,
     aliases: Vec<(String, String)>,
+    /// the next reserved word is not in command position (the body of a function definition)
+    kw_plain_next: bool,
 }
 impl Render {
     /// separator between commands of a list: newline, `;`, with optional blanks/comments
@@ -559,6 +561,17 @@ impl Render {
             self.harmless_redirection();
         }
     }
+    /// a reserved word in command position, now and then written through an alias for it
+    fn kw(&mut self, k: &str) {
+        let plain = std::mem::replace(&mut self.kw_plain_next, false);
+        if !plain && self.alias_ok && self.arng.chance(1, 16) {
+            let name = format!("k{}x", self.aliases.len());
+            self.aliases.push((name.clone(), k.to_string()));
+            self.out.push_str(&name);
+        } else {
+            self.out.push_str(k);
+        }
+    }
     /// a redirection that succeeds and changes nothing the run observes
     fn harmless_redirection(&mut self) {
         let r = *self.arng.pick(&[" </dev/null", " 3</dev/null", " <\"/dev/null\"", " 3<&0", "\t4< /dev/null", " </dev/null 3<&0"]);
@@ -700,10 +713,10 @@ impl Render {
                     "for v in \"$@\"; ",
                     "for v\nin \"$@\"\n",
                 ]));
-                self.out.push_str("do");
+                self.out.push_str("do"); // not a command position: no alias substitution before the `do` of a for loop
                 self.opt_nl();
                 self.list_term(b);
-                self.out.push_str("done");
+                self.kw("done");
             }
             Cmd::ForRo(k) => {
                 self.out.push_str("for ro in");
@@ -720,10 +733,10 @@ impl Render {
             }
             Cmd::Tick(c, k) => self.simple(&["tick".into(), c.to_string(), k.to_string()]),
             Cmd::Group(l) => {
-                self.out.push('{');
+                self.kw("{");
                 self.opt_nl();
                 self.list_term(l);
-                self.out.push('}');
+                self.kw("}");
             }
             Cmd::Subshell(l) => {
                 self.out.push('(');
@@ -750,35 +763,35 @@ impl Render {
                 self.out.push_str(*self.rng.pick(&[" & wait; }", "&wait;}", " &\nwait\n}"]));
             }
             Cmd::If(c, b, elifs, e) => {
-                self.out.push_str("if");
+                self.kw("if");
                 self.opt_nl();
                 self.list_term(c);
-                self.out.push_str("then");
+                self.kw("then");
                 self.opt_nl();
                 self.list_term(b);
                 for (c, b) in elifs {
-                    self.out.push_str("elif");
+                    self.kw("elif");
                     self.opt_nl();
                     self.list_term(c);
-                    self.out.push_str("then");
+                    self.kw("then");
                     self.opt_nl();
                     self.list_term(b);
                 }
                 if let Some(e) = e {
-                    self.out.push_str("else");
+                    self.kw("else");
                     self.opt_nl();
                     self.list_term(e);
                 }
-                self.out.push_str("fi");
+                self.kw("fi");
             }
             Cmd::While(until, c, b) => {
-                self.out.push_str(if *until { "until" } else { "while" });
+                self.kw(if *until { "until" } else { "while" });
                 self.opt_nl();
                 self.list_term(c);
-                self.out.push_str("do");
+                self.kw("do");
                 self.opt_nl();
                 self.list_term(b);
-                self.out.push_str("done");
+                self.kw("done");
             }
             Cmd::For(n, b) => {
                 self.out.push_str(*self.rng.pick(&["for v in", "for v in", "for v\nin", "for v \n\n in"]));
@@ -801,7 +814,7 @@ impl Render {
                 self.out.push_str("do");
                 self.opt_nl();
                 self.list_term(b);
-                self.out.push_str("done");
+                self.kw("done");
             }
             Cmd::Case(items) => {
                 let subject = *self.rng.pick(&["x", "x", "\"x\"", "'x'", "x$(st 3)", "$(st 4)x", "${unset_e}x", "`st 9`\"x\""]);
@@ -909,7 +922,7 @@ impl Render {
                 let text = b
                     .iter()
                     .map(|it| {
-                        let mut inner = Render { rng: Rng::new(1), out: String::new(), real: self.real, arng: Rng::new(1), alias_ok: false, aliases: vec![] };
+                        let mut inner = Render { rng: Rng::new(1), out: String::new(), real: self.real, arng: Rng::new(1), alias_ok: false, aliases: vec![], kw_plain_next: false };
                         inner.item(it);
                         inner.out.replace("\\\n", "").replace('\n', "; ").replace('\t', " ")
                     })
@@ -925,7 +938,9 @@ impl Render {
                 }
                 self.out.push_str("()");
                 self.opt_nl();
+                self.kw_plain_next = true;
                 self.cmd(c);
+                self.kw_plain_next = false;
             }
         }
     }
@@ -946,7 +961,7 @@ readonly ro=0\n\
 trap '' PIPE\n";
 
 pub fn render_with(seed: u64, lines: &[Line], real: bool) -> String {
-    let mut r = Render { rng: Rng::new(seed ^ 0x5EED), out: String::new(), real, arng: Rng::new(seed ^ 0xA11A5), alias_ok: true, aliases: vec![] };
+    let mut r = Render { rng: Rng::new(seed ^ 0x5EED), out: String::new(), real, arng: Rng::new(seed ^ 0xA11A5), alias_ok: true, aliases: vec![], kw_plain_next: false };
     if lines.is_empty() {
         return (*r.rng.pick(&["", "\n", "# nothing\n", "   \n\n", "# a\n# b"])).to_string();
     }
